@@ -75,7 +75,7 @@ SCENARIOS = {
     "M6": Scenario("M6", "module", [], ops=("Not",), loads=(), containers=(), max_depth=2,
                    funcs=(("nothing", [B], []), ("main", [B], None)), extra={"fn_ops": ("call",)}),
     # K2 - tracked builder over a user extension with linear and mixed-type gates (circuit style)
-    "K2": Scenario("K2", "tracked", [Q, Q, B], ops=("H", "CX", "Measure", "CFlip"), loads=(), max_depth=1),
+    "K2": Scenario("K2", "tracked", [Q, Q, B], ops=("H", "CX", "Measure", "CFlip"), loads=(), max_depth=1, extra={"track_later": True}),
     # Q1 - the same gates in a plain dataflow graph with a conditional on a measurement result
     "Q1": Scenario("Q1", "dfg", [Q, Q], ops=("H", "CX", "Measure", "CFlip"), loads=(), containers=("cond",), max_depth=2),
 }
